@@ -64,14 +64,25 @@ def roundtrip(ctx, res, d, basefile, target, tfmt, dfmt, stem, what, detail):
     tf = 'tgt%d_%s.%s' % (ctx.tgt_n, stem, tfmt)     # one file per layer name: never reuse a stem with another extension
     with open(os.path.join(d, tf), 'w') as f:
         f.write(ser.write(tfmt, [target], style='quoted' if tfmt == 'yaml' else None))
-    r = cli([ctx.bin('bkld'), '-f', dfmt, basefile, tf], cwd=d)
+    layer = '%s.diff.%s' % (stem, dfmt)
+    via_o = ctx.tgt_n % 5 == 0
+    if via_o:
+        # -o <layer> (format from its extension); the file already exists and is longer than any layer
+        with open(os.path.join(d, layer), 'w') as f:
+            f.write('# stale\n' * 400)
+        r = cli([ctx.bin('bkld'), '-o', layer, basefile, tf], cwd=d)
+        res.labels.add('via:bkld-o')
+    else:
+        r = cli([ctx.bin('bkld'), '-f', dfmt, basefile, tf], cwd=d)
     res.execs += 1
     if r.rc != 0:
         res.violate('roundtrip', 'bkld failed (%s): %s' % (what, r.err[-300:].decode('utf-8', 'replace')), **detail)
         return False
-    layer = '%s.diff.%s' % (stem, dfmt)
-    with open(os.path.join(d, layer), 'wb') as f:
-        f.write(r.out)
+    if via_o:
+        r.out = open(os.path.join(d, layer), 'rb').read()
+    else:
+        with open(os.path.join(d, layer), 'wb') as f:
+            f.write(r.out)
     r2 = cli([ctx.bin('bkl'), '-f', 'json', layer], cwd=d)
     res.execs += 1
     if r2.rc != 0:
